@@ -634,7 +634,15 @@ protected:
 
     for (auto kv : e) {
       const variable_t &pivot = kv.second;
-      interval_t i = compute_residual(e, pivot) / interval_t(kv.first);
+      // c * pivot != residual
+      interval_t c(kv.first);
+      interval_t residual = compute_residual(e, pivot);
+      interval_t i = residual / c;
+      if (!(i * c == residual)) {
+        // The division is not exact so i is a rounded quotient:
+        // removing it from pivot would remove feasible values.
+        continue;
+      }
       if (auto k = i.singleton()) {
         if (!add_univar_disequation(pivot, *k)) {
           // set_to_bottom() was already called
